@@ -58,6 +58,7 @@ func newFileHandlePool(store DataStore) *fileHandlePool {
 func (p *fileHandlePool) retain(pointer []byte) {
 	p.mu.Lock()
 	defer p.mu.Unlock()
+	verifEventS("pool.retain", 0, 0, string(pointer))
 
 	if p.closed {
 		return
@@ -73,6 +74,7 @@ func (p *fileHandlePool) retain(pointer []byte) {
 // file's idle handles.
 func (p *fileHandlePool) release(pointer []byte) {
 	p.mu.Lock()
+	verifEventS("pool.release", 0, 0, string(pointer))
 	entry := p.files[string(pointer)]
 	if entry == nil {
 		p.mu.Unlock()
@@ -95,6 +97,7 @@ func (p *fileHandlePool) release(pointer []byte) {
 func (p *fileHandlePool) acquire(ctx context.Context, pointer []byte) (io.ReadSeekCloser, error) {
 	p.mu.Lock()
 	if p.closed {
+		verifEventS("pool.acquire.closed", 0, 0, string(pointer))
 		p.mu.Unlock()
 		return nil, errHandlePoolClosed
 	}
@@ -103,9 +106,11 @@ func (p *fileHandlePool) acquire(ctx context.Context, pointer []byte) (io.ReadSe
 		handle := entry.idle[last]
 		entry.idle[last] = nil
 		entry.idle = entry.idle[:last]
+		verifEventS("pool.acquire.idle", 0, 0, string(pointer))
 		p.mu.Unlock()
 		return handle, nil
 	}
+	verifEventS("pool.acquire.open", 0, 0, string(pointer))
 	p.mu.Unlock()
 
 	// Opening is I/O: never under the pool lock.
@@ -119,11 +124,13 @@ func (p *fileHandlePool) put(pointer []byte, handle io.ReadSeekCloser) {
 	p.mu.Lock()
 	entry := p.files[string(pointer)]
 	if p.closed || entry == nil || entry.refs == 0 {
+		verifEventS("pool.put.close", 0, 0, string(pointer))
 		p.mu.Unlock()
 		handle.Close()
 		return
 	}
 	entry.idle = append(entry.idle, handle)
+	verifEventS("pool.put.idle", 0, 0, string(pointer))
 	p.mu.Unlock()
 }
 
@@ -131,6 +138,7 @@ func (p *fileHandlePool) put(pointer []byte, handle io.ReadSeekCloser) {
 // for handles whose seek or read failed: the handle's stream position is
 // unknown, and one bad handle must not poison the file's later readers.
 func (p *fileHandlePool) discard(handle io.ReadSeekCloser) {
+	verifEvent("pool.discard", 0, 0)
 	handle.Close()
 }
 
@@ -140,6 +148,7 @@ func (p *fileHandlePool) discard(handle io.ReadSeekCloser) {
 // once, either way.
 func (p *fileHandlePool) closeAll() {
 	p.mu.Lock()
+	verifEvent("pool.closeall", 0, 0)
 	p.closed = true
 	files := p.files
 	p.files = nil
